@@ -169,7 +169,16 @@ def export_cases(ctx, rng, n, tid0):
                     # model's grain density is made of) being on both
                     names = sorted({x.name for r3 in reacs for x in r3.reactants + r3.products})
                     extra.update(allowed_species=names + ["GRAIN0"], required_species=["GRAIN0"])
-                net = Network(reacs, grain_model="hh93", **extra)
+                if k % 4 == 3:
+                    # a THERMAL network: gas-phase reactions and cooling processes; the exported project must bring its temperature equation back
+                    reacs = [Reaction(["H", "e-"], ["H+", "e-", "e-"], 10.0, 41000.0, 5.0e-11, 0.5, 157800.0, RT.GAS_TWOBODY, 1),
+                             Reaction(["H+", "e-"], ["H"], -1.0, -1.0, 3.5e-12, -0.75, 0.0, RT.GAS_TWOBODY, 2),
+                             Reaction(["He", "e-"], ["He+", "e-", "e-"], -1.0, -1.0, 2.4e-11, 0.5, 285300.0, RT.GAS_TWOBODY, 3),
+                             Reaction(["He+", "e-"], ["He"], -1.0, -1.0, 4.5e-12, -0.67, 0.0, RT.GAS_TWOBODY, 4)]
+                    net = Network(reacs, cooling=rng.sample(["CIC_HI", "RC_HII", "CEC_HI", "CIC_HeI"], rng.randint(1, 3)))
+                    ev["thermal"] = True
+                else:
+                    net = Network(reacs, grain_model="hh93", **extra)
                 rate_exprs(ctx, net, f"exp_{k}")        # the direct rendering must work at all (a dust model may not serve these reaction classes)
         except Exception:   # noqa
             continue
@@ -325,6 +334,8 @@ def main(ctx: Ctx) -> int:
             if rng.random() < 0.3:       # names wider than the 12-character columns of the exchange format
                 side = rec["r"] if rng.random() < 0.5 or not rec["p"] else rec["p"]
                 side[rng.randrange(len(side))] = rng.choice(["CH3CH2CH2CH2OH", "CH3CH2CH2CH2OH2+", "HCOOCH2CH2CH3", "CH3CH2CH2CH2O"])
+            if rng.random() < 0.25:      # bounds wider than the 9-character columns of the exchange format ("no upper limit" spelled as a huge number)
+                rec["tmin"], rec["tmax"] = rng.choice([(10000.0, 1.0e9), (300.0, 2.5e10), (1234.56, 1234567.25), (0.01, 99999999.99), (-1.0, 1.0e12)])
             ty = rng.choice([100, 101, 102, 110, 111, 120])
             reacs.append(Reaction(rec["r"], rec["p"], temp_min=rec["tmin"], temp_max=rec["tmax"], alpha=rec["a"], beta=rec["b"], gamma=rec["c"],
                                   reaction_type=ReactionType(ty), idxfromfile=rng.choice([-1, 3, 77777])))
@@ -333,7 +344,8 @@ def main(ctx: Ctx) -> int:
             # the same channel listed again with other coefficients (two fits of one reaction, as merged databases have them): both are kept
             r0 = reacs[0]
             reacs.append(Reaction([x.name for x in r0.reactants], [x.name for x in r0.products], temp_min=r0.temp_min, temp_max=r0.temp_max,
-                                  alpha=r0.alpha * 3.0 + 1.0e-12, beta=r0.beta + 0.25, gamma=r0.gamma, reaction_type=r0.reaction_type, idxfromfile=r0.idxfromfile))
+                                  alpha=float(p3e(r0.alpha * 3.0 + 1.0e-12)), beta=float(p3e(r0.beta + 0.25)),   # (given to the printed precision, like every generated coefficient)
+                                   gamma=r0.gamma, reaction_type=r0.reaction_type, idxfromfile=r0.idxfromfile))
             codes.append(("api", int(r0.reaction_type)))
         nets.append(("api", Network(reacs), codes))
     for fmt, rec in gas_table_cases():
@@ -473,7 +485,7 @@ def main(ctx: Ctx) -> int:
                 ue["same_window"].append(wn)
             ev.append(ue)
         traces.append({"tid": ti + 1, "net": header, "pr": [[k, v] for k, v in pr.items()], "ev": ev, "origin": origin})
-    xt = export_cases(ctx, rng, 3 if ctx.quick else 40, len(traces))
+    xt = export_cases(ctx, rng, 4 if ctx.quick else 40, len(traces))
     cov["exported_projects_rerendered_in_a_fresh_process"] = len(xt)
     traces += xt
     v = validate_traces(ctx, "Trace_RoundTrip.tla", "Trace_RoundTrip.cfg", [{k: t[k] for k in ("tid", "net", "pr", "ev")} for t in traces], "rt", chunk=800)
